@@ -13,6 +13,9 @@ ASSUMPTIONS = [
 GENS = [
     (5, dict(bad_rate=0.2, inplace_rate=0.5, fail_rate=0.1, flavour="frozen")),
     (2, dict(bad_rate=0.2, inplace_rate=0.0, fail_rate=0.1, flavour="frozen")),
+    # a frozen holder of non-frozen nested values: in-place nested updates must not reach the nested objects
+    (4, dict(bad_rate=0.05, inplace_rate=0.85, fail_rate=0.0, flavour="frozen_parent", prefer_nested=True,
+             weights={"construct": 1, "scalar": 6, "item": 5, "top": 3})),
 ]
 
 
